@@ -138,6 +138,7 @@ def spaces(tier, seed):
                             for lay in (("cell", "ring") if thorough else [("cell", "ring")[(k // 7) % 2]]):
                                 pipes.append({"kind": "pipe", "m": m, "w": w, "s": s, "cbca": cbca, "seq": list(seq),
                                               "form": form, "pair": pair, "seed": seed, "lay": lay,
+                                              "bandorder": ["minmax", "maxmin"][(k // 3) % 2],
                                               "dmin": -2 + (k % 2), "dmax": 1 + (k % 2)})
     # strips (2 or 3 rows, 14 columns) whose requested interval lies on one side of 0 and which hold a run of
     # rejected pixels much longer than the short side: a fill that invents a value (0, a stale buffer) instead of
@@ -431,6 +432,12 @@ def build_pipe_inputs(case):
         # right grids are mandatory for cross-checking with left grids: the constant mirrored interval
         right = D.image(rimg, disp=(np.full((ny, nx), -b, dtype=np.float32), np.full((ny, nx), -a, dtype=np.float32)),
                         msk=rmsk)
+    if case.get("bandorder") == "maxmin":
+        # the same intervals with the two planes of the disparity variable stored as (max, min): the planes are
+        # labelled by the band_disp coordinate, not by their position
+        left = left.isel(band_disp=[1, 0])
+        if "disparity" in right:
+            right = right.isel(band_disp=[1, 0])
     return left, right, np.asarray(gmin, dtype=np.float64), np.asarray(gmax, dtype=np.float64)
 
 
